@@ -652,6 +652,28 @@ def eval_sorter_after_failed_spill(cap, sp, keys):
     return info, failures
 
 
+def eval_sorter_large(cap, sp, extra):
+    """A capacity well above the small ones (an implementation that sizes its stash in blocks shows only there): the bound
+    is checked when the number of adds reaches the capacity, once more a little later, and at the end."""
+    from maflib.sorter import Sorter
+    from .c07 import JsonCodec
+    failures = []
+    total = cap + extra
+    with tempfile.TemporaryDirectory() as tmp:
+        s = Sorter(cap, JsonCodec(), lambda x: x[0], tmp_dir=tmp, always_spill=sp)
+        for k in range(total):
+            s += ((k * 7919) % 10007, k)
+            added = k + 1
+            if added in (cap, cap + 1, cap + extra // 2, total):
+                spilled = spilled_count(tmp)
+                if added - spilled >= cap:
+                    failures.append({"what": "after %d adds with capacity %d only %d records are on disk (%d still in memory, must be < %d)" % (added, cap, spilled, added - spilled, cap),
+                                     "kind": "sorter-not-spilling-large", "capacity": cap, "always_spill": sp, "extra": extra})
+                    break
+        s.close()
+    return failures
+
+
 def spilled_count(tmp):
     import glob
     import gzip
@@ -667,6 +689,15 @@ def spilled_count(tmp):
                 h.read(ln)
                 n += 1
     return n
+
+
+def sorter_large_cases(ctx, out, rng):
+    for cap in ([1025, 1500] if ctx.tier == "quick" else [1025, 1500, 3000, 5000]):
+        sp = rng.random() < 0.5
+        out.evaluations += 1
+        out.failures += eval_sorter_large(cap, sp, 60)
+        out.nontrivial.add(("sorter-large", cap, sp))
+        out.distribution["sorter capacity above 1024"] += 1
 
 
 def sorter_cases(ctx, out, rng):
@@ -694,6 +725,7 @@ def run(ctx):
     overlap_cases(ctx, out, rng)
     overlap_unkeyable_cases(ctx, out, ctx.rng("c19-unkeyable"))
     sorter_cases(ctx, out, rng)
+    sorter_large_cases(ctx, out, ctx.rng("c19-large"))
     # own streams: the cases above are unchanged
     reader_factory_cases(ctx, out, ctx.rng("c19", "reader-factories"))
     allele_cases(ctx, out, ctx.rng("c19", "allele"))
@@ -792,6 +824,14 @@ def replay_case(ctx, failure):
             "out.maf.gz" if f["gz"] else "out.maf", f["records"], "typed" if f["typed"] else "scheme-less"))
         info, failures = eval_writer_path(f["typed"], f["header"], f["records"], f["gz"])
         print("implementation: per record (index, chars passed to the handle by that +=, ends with the record's line): %s" % info["steps"])
+        return failures
+    elif kind == "sorter-not-spilling-large":
+        if not (isinstance(f.get("capacity"), int) and "always_spill" in f):
+            return None
+        print("executed: Sorter(capacity=%d, always_spill=%s) += %d items, spill files decoded when the number of adds reaches the capacity, a little later and at the end" % (
+            f["capacity"], f["always_spill"], f["capacity"] + f.get("extra", 60)))
+        failures = eval_sorter_large(f["capacity"], f["always_spill"], f.get("extra", 60))
+        print("implementation: %s" % (failures[0]["what"] if failures else "the bound held at every point looked at"))
         return failures
     elif kind == "sorter-not-spilling-after-fault":
         keys = f.get("keys")
